@@ -276,6 +276,9 @@ def correspondence(ctx):
     impl = [impl_op(op) for op in ops]
     model = common.run_model(ops)
     # Young-diagram rows and tableau lists are compared as sets with multiplicity (the property does not fix an order)
+    same_order = sum(1 for i, op in enumerate(ops) if op.split(' ')[1] in ('young', 'tableaux') and impl[i] == model[i])
+    n_ordered = sum(1 for op in ops if op.split(' ')[1] in ('young', 'tableaux'))
+    ctx.extra['young_tableaux_lists_in_identical_order'] = f'{same_order}/{n_ordered}'
     for i, op in enumerate(ops):
         if op.split(' ')[1] in ('young', 'tableaux'):
             impl[i] = sort_rows(impl[i]); model[i] = sort_rows(model[i])
@@ -376,6 +379,16 @@ def probe(ctx):
             ctx.fail('numirrep', f'get_sym_group_num_irrep({N}) = {got}, number of partitions is {p[N]}', dict(N=N, observed=got, expected=p[N]))
         else:
             ctx.probe_ok(('p', N))
+    # observation outside the stated range: the code fills an int64 table, the model counts in unbounded naturals
+    try:
+        big = pentagonal_counts(406)
+        v405 = int(G.get_sym_group_num_irrep(405)); v406 = int(G.get_sym_group_num_irrep(406))
+        ctx.extra['int64_boundary'] = dict(N405_correct=(v405 == big[405]), N406_observed=v406, N406_partitions=big[406], fits_int64_up_to=405,
+                                           note='get_sym_group_num_irrep is exact iff p(N) < 2^63, i.e. N <= 405; beyond that it silently overflows (outside the property range N <= 60)')
+        if v405 != big[405]:
+            ctx.fail('numirrep', f'get_sym_group_num_irrep(405) = {v405}, number of partitions is {big[405]}', dict(N=405, observed=v405, expected=big[405]))
+    except Exception as e:
+        ctx.note(f'int64 boundary observation not evaluated: {type(e).__name__}: {e}')
     # the full table: z0[n,m] = #partitions of n with parts <= m
     Nf = 30 if q else 60
     def pnm(N):
@@ -430,7 +443,7 @@ def probe(ctx):
                 ctx.fail('tableaux:' + bad[0], f'get_all_young_tableaux({s}): {bad[0]} {bad[1]}', dict(shape=s, what=bad[0], witness=bad[1]))
             else:
                 ctx.probe_ok(('tab', tuple(s)))
-    ctx.assumptions.append('irreducible blocks: np.linalg.eigh contract; unitarity/homomorphism tolerance 1e-8 (measured max error %.1e), character orthonormality 1e-6; hypotheses of sum_sq_dims_eq_order (F unitary on both sides, intertwining) measured residual %.1e < 1e-8' % (ctx.extra.get('irrep_max_err', 0.0), ctx.extra.get('irrep_regular_equiv_residual', 0.0)))
+    ctx.assumptions.append('irreducible blocks: np.linalg.eigh contract; unitarity/homomorphism tolerance 1e-8 (measured max error %.1e), character orthonormality 1e-6; hypotheses of NumqiProofs/IrrepAlgebra.lean card_eq_of_near_unitary / fourier_intertwines (entrywise residuals of FF^+-1, F^+F-1 below 1/(2*size) >= 1/240; intertwining) measured %.1e' % (ctx.extra.get('irrep_max_err', 0.0), ctx.extra.get('irrep_regular_equiv_residual', 0.0)))
 
 
 def search(ctx, hints):
